@@ -34,6 +34,8 @@ def check(prog, rep, tier):
     rep.rule('R14.e', 'address-family names: the table that names a decoded <AFI, SAFI> (AFI_SAFI_DICT, used for ADD-PATH) '
                       'and the table that turns a name into <AFI, SAFI> (AFI_SAFI_STR_DICT) are inverse bijections: no '
                       'family has two names and every decoded name means the family it was decoded from')
+    rep.rule('R14.f', 'the true AS survives: Open.construct has no return in front of the statement that adds the 4-octet-AS '
+                      'capability (a path that writes AS_TRANS into the 2-octet field without capability 65 loses the AS)')
     rep.rule('R14.d', 'field boundaries: no comparison in the OPEN / NOTIFICATION / KEEPALIVE / ROUTE-REFRESH codecs '
                       'splits a range between 2**k - 2 and 2**k - 1 (AS 65535 is a 2-octet AS)')
     rep.assumptions += ['value equality of the round trip is not decided; AS_TRANS handling is C05 R05.b']
@@ -343,6 +345,7 @@ def check(prog, rep, tier):
     common.report_boundary_splits(prog, rep, 'R14.d', lambda fn: fn.module.name in (
         'yabgp.message.open', 'yabgp.message.notification', 'yabgp.message.keepalive', 'yabgp.message.route_refresh'))
     family_names(prog, rep)
+    no_return_before_as4(prog, rep)
     # the capability dispatch is total over the codes 0..255 (finite partition)
     cap_dispatch_total(prog, rep, ocls)
     # unknown-code fallback in Open.parse
@@ -460,17 +463,17 @@ def cap_dispatch_total(prog, rep, ocls):
         rep.ok('R14.c', 'cap-dispatch-total', file=meth.file, line=head.lineno, found='256 codes matched')
 
 
-def family_names(prog, rep):
+def family_names(prog, rep, rule='R14.e'):
     cm = prog.modules['yabgp.common.constants']
     line = getattr(cm.assigns.get('AFI_SAFI_DICT'), 'lineno', None)
     try:
         dec = prog.fold(cm.assigns['AFI_SAFI_DICT'], cm)
         enc = prog.fold(cm.assigns['AFI_SAFI_STR_DICT'], cm)
     except Exception as e:
-        rep.undecided('R14.e', 'family-names', file=cm.relpath, line=line, found='tables not foldable: %s' % e)
+        rep.undecided(rule, 'family-names', file=cm.relpath, line=line, found='tables not foldable: %s' % e)
         return
     if not isinstance(dec, dict) or not isinstance(enc, dict):
-        rep.undecided('R14.e', 'family-names', file=cm.relpath, line=line, found='tables are not dictionaries')
+        rep.undecided(rule, 'family-names', file=cm.relpath, line=line, found='tables are not dictionaries')
         return
     by_fam = {}
     for name, fam in enc.items():
@@ -481,19 +484,43 @@ def family_names(prog, rep):
         names = by_fam.get(fam, [])
         got = dec.get(fam)
         if len(names) > 1:
-            rep.bad('R14.e', key, file=cm.relpath, line=line,
+            rep.bad(rule, key, file=cm.relpath, line=line,
                     found='family %s has %d names in AFI_SAFI_STR_DICT (%s); a decoded OPEN names it %r, the other '
                           'name(s) never come back' % (fam, len(names), ', '.join(sorted(names)), got),
                     expected='one name per family', key=key)
         elif got is not None and enc.get(got) is not None and tuple(enc[got]) != fam:
-            rep.bad('R14.e', key, file=cm.relpath, line=line,
+            rep.bad(rule, key, file=cm.relpath, line=line,
                     found='a decoded %s is named %r, and that name means %s' % (fam, got, enc[got]),
                     expected='name tables inverse to each other', key=key)
         elif got is not None and names and got != names[0]:
-            rep.bad('R14.e', key, file=cm.relpath, line=line,
+            rep.bad(rule, key, file=cm.relpath, line=line,
                     found='a decoded %s is named %r but the configuration name of that family is %r' % (
                         fam, got, names[0]), expected='name tables inverse to each other', key=key)
         else:
             n += 1
-            rep.ok('R14.e', key, file=cm.relpath, line=line, found='%r' % (got if got is not None else names[:1]))
-    rep.floor('R14.e', 'address families named', n, 12)
+            rep.ok(rule, key, file=cm.relpath, line=line, found='%r' % (got if got is not None else names[:1]))
+    rep.floor(rule, 'address families named', n, 12)
+
+
+
+def no_return_before_as4(prog, rep):
+    f = prog.func('yabgp.message.open.Open.construct')
+    idx = None
+    for i, st in enumerate(f.node.body):
+        for n in ast.walk(st):
+            if isinstance(n, ast.Call) and src_of(n.func) == 'Capability' and any(
+                    k.arg == 'capa_code' and prog.try_fold(k.value, f.module, f.cls) == 65 for k in n.keywords):
+                idx = i if idx is None else idx
+    key = 'as4-before-return'
+    if idx is None:
+        rep.undecided('R14.f', key, file=f.file, line=f.node.lineno, found='no Capability(capa_code=65) in Open.construct')
+        return
+    early = [n for st in f.node.body[:idx] for n in ast.walk(st) if isinstance(n, ast.Return)]
+    if early:
+        rep.bad('R14.f', key, file=f.file, line=early[0].lineno, func=f.qualname,
+                found='Open.construct returns at line %d, before the 4-octet-AS capability is added (line %d): an AS '
+                      'above 65535 goes out as AS_TRANS with no capability 65 and decodes as 23456' % (
+                          early[0].lineno, f.node.body[idx].lineno),
+                expected='every path passes the capability-65 decision', key=key)
+    else:
+        rep.ok('R14.f', key, file=f.file, line=f.node.body[idx].lineno)
